@@ -518,8 +518,6 @@ func overheadStreams(r *hk.Rand, quick bool) []fixedStream {
 	out = append(out,
 		fixedStream{mk(1040, 16, 0, "0\r\n\r\n"), "overhead-exactly-16384"},
 		fixedStream{mk(1040, 16, 17, "0\r\n\r\n"), "overhead-16385"},
-		fixedStream{mk(1040, 16, 17, "1\r\nZ\r\n0\r\n\r\n"), "overhead-16385-more"},
-		fixedStream{mk(4095, 5, 0, "0\r\n\r\n"), "overhead-4095x5"},
 		fixedStream{mk(4095, 4, 84, "0\r\n\r\n"), "overhead-edge"},
 		fixedStream{mk(64, 342, 0, "0\r\n\r\n"), "overhead-64x342"},
 		fixedStream{mk(64, 341, 32, "0\r\n\r\n"), "overhead-64x341+32"},
@@ -533,6 +531,9 @@ func overheadStreams(r *hk.Rand, quick bool) []fixedStream {
 		fixedStream{[]byte("7ffffffffffffff9;" + strings.Repeat("e", 40) + "\r\nabc"), "wrap64-add16"},
 	)
 	if !quick {
+		out = append(out,
+			fixedStream{mk(1040, 16, 17, "1\r\nZ\r\n0\r\n\r\n"), "overhead-16385-more"},
+			fixedStream{mk(4095, 5, 0, "0\r\n\r\n"), "overhead-4095x5"})
 		for i := 0; i < 12; i++ {
 			ll := r.Range(17, 4095)
 			cnt := 16384/(ll-16) + r.Range(-1, 1)
